@@ -3,8 +3,16 @@ From Coq Require Import Strings.Byte.
 From Coq Require Import List NArith ZArith.
 From Goit Require Import Bytes Obj Regex GoRegex Commit RegexFacts CommitFacts.
 From Goit Require Import Tree Index Config World Repo TreeFacts ExactFacts CommitCmdFacts LogView LogViewFacts.
+From Goit Require Import Bridge.
 Import ListNotations.
 Local Open Scope Z_scope.
+
+(* T0 (tie to the source): every regexp literal of the current Go source denotes
+   the same language, with the same anchoring, as the pattern of the model — proved
+   by running the verified equivalence checker on SrcRegex.v, which is regenerated
+   from /repo on every run (see Bridge.v) *)
+Theorem C12_source_patterns_are_the_models : source_patterns_agree.
+Proof. exact source_patterns. Qed.
 
 (* T0: the theorems below are about the pattern the current Go source contains:
    this equation is checked against the regenerated GoRegex.v on every run *)
@@ -99,3 +107,4 @@ Print Assumptions C12_commit_roundtrip.
 Print Assumptions C12_log_reads_back_what_was_written.
 Print Assumptions C12_commit_then_log.
 Print Assumptions C12_sign_pattern_language.
+Print Assumptions C12_source_patterns_are_the_models.
